@@ -22,6 +22,12 @@ package main
 //   T transport closed, A<e>.<q> e returned a message carrying nonce q (and q's ID),
 //   F<e> e returned an error, G<e> e returned its ctx error.
 // Within one op events are put into a canonical order (the order of the model's schedule).
+// " stuck" is appended when the transport's goroutines did not come to rest after an op.
+// Whenever an exchange returns, the harness takes a buffer of the payload's size from
+// internal/pool and writes a different query (nonce 9999) into it: a worker that still uses
+// the caller's payload buffer then puts foreign bytes on the wire (W<c>.9999).
+// Real time matters only for `t`: a run in which a script segment between two `t` took longer
+// than half the idle timeout is repeated (idle timers could have fired on their own).
 
 import (
 	"context"
@@ -361,7 +367,7 @@ func (h *c06case) quiet() bool {
 		}
 	}
 	for _, c := range h.conns {
-		rest := (c.closed && c.inIO == 0) || c.wBlocked || (c.rBlocked && len(c.rbuf) == 0) || (ok && idle[c] && c.inIO == 0)
+		rest := (c.closed && c.inIO == 0) || c.wBlocked || (c.rBlocked && len(c.rbuf) == 0) || (ok && idle[c] && c.inIO == 0) || (!ok && c.inIO == 0)
 		if !rest {
 			return false
 		}
